@@ -107,6 +107,26 @@ CHECKS.update({
              'identity; Mapping.items() purity for arbitrary Mapping types '
              '(A-STATIC); pyvc, z3.',
         ref='DESIGN.md section 4 C08'),
+    'C17': dict(
+        text='Radix-1000 packing proved on the real functions for tuples of '
+             'length 1..6 with symbolic components (all values 0..999): '
+             'convert_version_to_int is the Horner value, '
+             'convert_version_to_str inverts it (its while loop is unrolled '
+             'by the solver-decided exit test), integer order == tuple order '
+             'for equal lengths 1..5, plus the LIA induction step that '
+             'extends the order lemma to every length; invalid versions raise '
+             'ValueError; is_compatible and VersionPredicate.satisfied_by '
+             'control flow against an abstract totally ordered Version '
+             '(operands and operator per clause, conjunction, no early '
+             'exit), _COMP_MAP checked entry by entry. Bounded stand-in: '
+             'dotted strings, pre-release suffixes, 22x22 PEP 440 pairs, '
+             'predicate conjunctions, malformed predicates against '
+             'packaging itself.',
+        note='A-PACKAGING (Version is PEP 440 total order with .major), '
+             'A-STDLIB-INT (str(n) injective); str/regex parsing of dotted '
+             'strings and predicates is covered by the bounded family only; '
+             'pyvc, z3.',
+        ref='DESIGN.md section 4 C17'),
     'C10': dict(
         text='(1) Regular-language lemmas (z3 RegLan, translated on every run '
              'from the real pattern strings in UNIT_SYSTEM_INFO via CPython\'s '
@@ -267,6 +287,7 @@ SOURCE_COMMITS = [
     "db2dbfa fix: mask_password left the tail of unquoted secrets containing '^' unmasked",
     '7b4ba01 fix: regions located from data completed in the same chunk were not followed up',
     '699f41f fix: VHDX pointers behind the stream position made the verdict depend on chunking',
+    '8c91506 fix: convert_version_to_int raised TypeError for an invalid tuple version',
 ]
 
 if __name__ == '__main__':
